@@ -1,12 +1,12 @@
 package harness
 
 import (
-	"strings"
 	"bytes"
 	"errors"
 	"fmt"
 	"io"
 	"runtime"
+	"strings"
 	"sync"
 	"time"
 
@@ -170,13 +170,13 @@ type RecBackend struct {
 	Events     []*Sx    // main-loop events in order (shared with the conn's write log)
 	Deliveries []*Sx    // BDAT deliveries (own goroutine)
 	wg         sync.WaitGroup
-	Baseline   int // runtime.NumGoroutine() while no delivery goroutine exists
+	Baseline   int  // runtime.NumGoroutine() while no delivery goroutine exists
 	NoSync     bool // do not wait for delivery goroutines (leftovers of an earlier, broken conversation exist)
 	// PanicAt makes the n-th (1-based) call of the named callback ("mail", "rcpt", "reset") panic.
-	PanicAt  map[string]int
-	nCalls   map[string]int
+	PanicAt map[string]int
+	nCalls  map[string]int
 	// Gate, if set, is called at named points ("data-begin", "data-return") and may block.
-	Gate func(point string, n int)
+	Gate  func(point string, n int)
 	nData int
 	// CloseAt: the n-th (1-based) call of the named callback calls CloseFn (Server.Close) from another
 	// goroutine and waits for its return; see closeat.go.
@@ -353,6 +353,7 @@ func (b *RecBackend) maybePanic(cb string) {
 		panic("verif: scripted backend panic in " + cb)
 	}
 }
+
 // Logout always reports an error: the server has nothing to do with it but to go on ending the session.
 func (s *recSession) Logout() error { s.b.add(L(A("logout"))); return errLogout }
 
@@ -440,7 +441,7 @@ func (s *recSession) deliver(r io.Reader, status smtp.StatusCollector) (ret erro
 	}
 	term := ErrKind(rerr)
 	planRet := p.Ret.Err()
-	if rerr != nil && rerr != io.EOF && p.Prop {
+	if rerr != nil && !errors.Is(rerr, io.EOF) && p.Prop {
 		planRet = rerr
 	}
 	rec := func(panicked bool) {
